@@ -88,8 +88,12 @@ def run(repo: Repo) -> Result:
         res.sample({"rule": "C27-WITH", "function": f.qual, "with": text(ce)[:100]})
 
     # ---- C27-CALL ----------------------------------------------------------------
+    from ..normalize import nfunc
+
     for m, ev in (("render_to_output", "evaluate"), ("render_to_output_async", "evaluate_async")):
-        f = repo.own_method(CALL, m)
+        # helpers inlined (`_get_macro`, `_macro_context`), aliases such as
+        # `undefined = context.env.undefined` propagated — `macro_args` itself stays a call
+        f = nfunc(repo, repo.own_method(CALL, m), keep=("macro_args",))
         res.ob(f.qual, 4)
         src = text(f.node)
         nsd = None
@@ -166,14 +170,30 @@ def run(repo: Repo) -> Result:
     if not d_ok:
         res.add("C27-BIND", f.qual, "defaults", "macro_args must start from {name: param.value for name, param in macro.args.items()}", f.file, f.line)
     fors = [s for s in body if isinstance(s, ast.For)]
-    pos = next((s for s in fors if isinstance(s.iter, ast.Call) and callee_name(s.iter) == "zip_longest"), None)
+    # positional pairing, in either spelling:
+    #   for name, expr in zip_longest(macro.args, self.args, ...):   (surplus: the `name is None` leg)
+    #   for name, expr in zip(macro.args, self.args):                (surplus: self.args[len(macro.args):])
+    pos = next((s for s in fors if isinstance(s.iter, ast.Call) and callee_name(s.iter) in ("zip_longest", "zip") and [text(a) for a in s.iter.args[:2]] == ["macro.args", "self.args"]), None)
     kw = next((s for s in fors if attr_chain(s.iter) == ["self", "kwargs"]), None)
-    if pos is None or [text(a) for a in pos.iter.args] != ["macro.args", "self.args"]:
-        res.add("C27-BIND", f.qual, "positional", "positional arguments must be paired in order: zip_longest(macro.args, self.args, fillvalue=None)", f.file, f.line)
+    if pos is None or not (isinstance(pos.target, ast.Tuple) and len(pos.target.elts) == 2 and all(isinstance(x, ast.Name) for x in pos.target.elts)):
+        res.add("C27-BIND", f.qual, "positional", "positional arguments must be paired in order: zip_longest(macro.args, self.args, fillvalue=None) (or zip + the slice self.args[len(macro.args):])", f.file, f.line)
     else:
         n_, e_ = [x.id for x in pos.target.elts]
-        ptxt = text(pos)
-        if f"excess_args.append({e_}.value)" not in ptxt or f"args[{n_}] = {e_}.value" not in ptxt or f"if {n_} is None" not in ptxt:
+        binds = any(isinstance(x, ast.Assign) and text(x.targets[0]) == f"args[{n_}]" and text(x.value) == f"{e_}.value" for x in ast.walk(pos))
+        if callee_name(pos.iter) == "zip_longest":
+            ptxt = text(pos)
+            surplus = f"excess_args.append({e_}.value)" in ptxt and f"if {n_} is None" in ptxt
+        else:
+            # zip stops at the shorter list: the surplus is the tail of self.args after the declared parameters
+            surplus = False
+            for x in ast.walk(f.node):
+                it = None
+                if isinstance(x, (ast.ListComp, ast.GeneratorExp)) and len(x.generators) == 1 and isinstance(x.elt, ast.Attribute) and x.elt.attr == "value" and is_name(x.elt.value, x.generators[0].target.id if isinstance(x.generators[0].target, ast.Name) else ""):
+                    it = x.generators[0].iter
+                if it is not None and text(it) in ("self.args[len(macro.args):]",):
+                    # ... and it is what excess_args is bound to / extended with
+                    surplus = True
+        if not (binds and surplus):
             res.add("C27-BIND", f.qual, "positional-body", "surplus positionals must go to excess_args and the others to args[name] = expr.value", f.file, pos.lineno)
     if kw is None:
         res.add("C27-BIND", f.qual, "keyword", "keyword arguments must be applied in a loop over self.kwargs", f.file, f.line)
